@@ -895,6 +895,13 @@ def fam_cpu_mix(seed):
         elif t == 4 and r.integers(0, 3) == 0 and len(g.T(x).shape) == 4:
             X = g.T(x)
             x = g.reshape(x, [1, X.shape[2], X.shape[1], X.shape[3]] if r.integers(0, 2) else [1, X.shape[1] * X.shape[2], 1, X.shape[3]], dynamic_shape=True)
+        elif t == 4 and r.integers(0, 2) == 0 and x not in g.net.inputs:
+            # residual connection around a CPU-resident operator: an accelerated binary operator reads the accelerated tensor and the CPU result, in either operand order
+            f = g.cpu_op(x, str(r.choice(["custom", "neg", "reverse"])))
+            if g.T(f).shape == g.T(x).shape and g.T(f).dtype == g.T(x).dtype:
+                x = g.eltwise(str(r.choice(["add", "sub", "mul"])), *((x, f) if r.integers(0, 2) else (f, x)))
+            else:
+                x = f
         elif t == 4:
             x = g.cpu_op(x, str(r.choice(["custom", "neg", "floor_div", "reverse"])))
         elif t == 5:
